@@ -396,3 +396,72 @@ func genDistr(g *Gen, n int, faults bool) {
 		g.count("scenario")
 	}
 }
+
+func init() {
+	generators["distrupd"] = genDistrUpd
+}
+
+// parameter-update histories for the distributor (C13): full / single sub-distributor / share /
+// burn-share updates from gov and other authorities, valid and invalid, interleaved with blocks
+func genDistrUpd(g *Gen, n int) {
+	for sc := 0; sc < n; sc++ {
+		g.emit("reset distrupd %d", sc)
+		emitDistrFacts(g)
+		subs := genDistrConfig(g)
+		emitDistrConfig(g, subs)
+		g.emit("d.setparams")
+		g.emit("d.params")
+		mainAddr := authtypes.NewModuleAddress(distrtypes.DistributorMainAccount).String()
+		for i := 0; i < 3+g.intn(8); i++ {
+			auth := g.pick("gov", "gov", "gov", "gov", "other", "empty", "garbage")
+			switch g.intn(6) {
+			case 0:
+				ns := genDistrConfig(g)
+				if g.chance(0.2) && len(ns) > 1 {
+					g.r.Shuffle(len(ns), func(a, b int) { ns[a], ns[b] = ns[b], ns[a] })
+				}
+				emitDistrConfig(g, ns)
+				g.emit("d.update full %s", auth)
+				if auth == "gov" {
+					subs = ns
+				}
+			case 1:
+				// replace one sub-distributor: same name, freshly generated body (often breaks the ordering rule)
+				ns := genDistrConfig(g)
+				one := ns[g.intn(len(ns))]
+				if len(subs) > 0 && g.chance(0.8) {
+					one.name = subs[g.intn(len(subs))].name
+				}
+				emitDistrConfig(g, []gSub{one})
+				g.emit("d.update sub %s %d", auth, 0)
+			case 2:
+				g.emit("d.update sub %s 1", auth)
+			case 3:
+				sn, dn := "sub0", "sh0_0"
+				if len(subs) > 0 {
+					s := subs[g.intn(len(subs))]
+					sn = s.name
+					if len(s.shares) > 0 {
+						dn = s.shares[g.intn(len(s.shares))].name
+					}
+				}
+				g.emit("d.update share %s %s %s %s", auth, g.pick(esc(sn), esc(sn), "%e", "nosuch"), g.pick(esc(dn), esc(dn), "%e", "nosuch"),
+					g.pick(genShareValue(g).String(), genShareValue(g).String(), "-", "-1", "1000000000000000000", "999999999999999999"))
+			case 4:
+				sn := "sub0"
+				if len(subs) > 0 {
+					sn = subs[g.intn(len(subs))].name
+				}
+				g.emit("d.update burn %s %s %s", auth, g.pick(esc(sn), esc(sn), "%e", "nosuch"),
+					g.pick(genShareValue(g).String(), genShareValue(g).String(), "-", "-1", "1000000000000000000", "999999999999999999"))
+			default:
+				g.emit("d.credit %s %s", mainAddr, genInflowCoins(g))
+				g.emit("d.bb")
+			}
+			g.emit("d.params")
+		}
+		g.emit("d.bb")
+		g.emit("d.end")
+		g.count("scenario")
+	}
+}
